@@ -30,6 +30,9 @@ var localVarScopes []map[string]string
 // created types of names that have no declaration in sight (`x = new Foo()`), per function
 var assignedTypes = make(map[string]string)
 
+// which entries of imports are static imports on demand (`import static a.b.C.*;`), by index
+var staticOnDemandImports = make(map[int]bool)
+
 var currentClzExtend = ""
 var currentMethod core_domain.CodeFunction
 var methodMap = make(map[string]core_domain.CodeFunction)
@@ -60,6 +63,7 @@ func NewJavaFullListener(nodes map[string]core_domain.CodeDataStruct, file strin
 	localVarScopes = nil
 	assignedTypes = make(map[string]string)
 	creatorMethodMap = make(map[string]core_domain.CodeFunction)
+	staticOnDemandImports = make(map[int]bool)
 	currentType = ""
 	currentCreatorNode = *core_domain.NewDataStruct()
 	hasEnterClass = false
@@ -161,6 +165,14 @@ func (s *JavaFullListener) EnterImportDeclaration(ctx *parser.ImportDeclarationC
 		onDemandImports = append(onDemandImports, importText)
 	}
 	currentNode.Imports = append(currentNode.Imports, core_domain.NewJImport(importText))
+}
+
+// `import static a.b.C.*;` brings the static members of C into scope, not C itself: the entry just
+// added to imports must not resolve the simple name C
+func (s *JavaFullListener) ExitImportDeclaration(ctx *parser.ImportDeclarationContext) {
+	if ctx.STATIC() != nil && ctx.MUL() != nil && len(imports) > 0 {
+		staticOnDemandImports[len(imports)-1] = true
+	}
 }
 
 func (s *JavaFullListener) EnterClassDeclaration(ctx *parser.ClassDeclarationContext) {
